@@ -355,8 +355,8 @@ func (d *LocalPFGrantData) WriteTo(w io.Writer) (int64, error) {
 
 // ReadFrom reads a serialized commandgrantdata block
 func (d *LocalPFGrantData) ReadFrom(r io.Reader) (int64, error) {
-	// read command
-	panic("LocalPFGrantData ReadFrom: unimplemented")
+	// Reached with peer-supplied bytes (Intent.ReadFrom): fail, do not panic.
+	return 0, errors.New("LocalPFGrantData ReadFrom: unimplemented")
 }
 
 // WriteTo writes serialized remote pf grant data
@@ -366,8 +366,8 @@ func (d *RemotePFGrantData) WriteTo(w io.Writer) (int64, error) {
 
 // ReadFrom reads a serialized commandgrantdata block
 func (d *RemotePFGrantData) ReadFrom(r io.Reader) (int64, error) {
-	// read command
-	panic("RemotePFGrantData ReadFrom: unimplemented")
+	// Reached with peer-supplied bytes (Intent.ReadFrom): fail, do not panic.
+	return 0, errors.New("RemotePFGrantData ReadFrom: unimplemented")
 }
 
 // ReadIntentRequest reads intent request and returns intent
